@@ -6,8 +6,15 @@
 (* existing handle's value alone; observation, reward and termination      *)
 (* create nothing and change nothing; only an explicit mutation by the     *)
 (* caller changes a value, and only that handle's.                         *)
+(* An answer (observation) handed to the caller is not changed by any      *)
+(* later call, so that a retained answer still equals the answer to the    *)
+(* same question asked again.  Deliberate deviation, modelled as it is: an *)
+(* observation shares the cell objects of the state it was computed from   *)
+(* (Grid.subgrid does not copy), so the CALLER mutating that state may     *)
+(* change the answers asked about it - and nothing else may.               *)
 (* The replay harness executes behaviours of this model on real State      *)
-(* objects and re-projects ALL live handles after every operation.         *)
+(* objects and re-projects ALL live handles and ALL retained answers after *)
+(* every operation.                                                        *)
 (***************************************************************************)
 EXTENDS Integers, Sequences, FiniteSets, TLC
 
@@ -16,29 +23,36 @@ CONSTANTS MaxHandles, Depth
 VARIABLES val,     \* val[h]: abstract value version of handle h
           ids,     \* ids[h]: identity tokens of the mutable components of handle h
           nextTok, \* next fresh token (values and identities)
+          ans,     \* ans[k]: the k-th observation handed out: <<handle it was asked about, value>>
           hist     \* sequence of operations <<op, handle(s)>>
-vars == <<val, ids, nextTok, hist>>
+vars == <<val, ids, nextTok, ans, hist>>
 Handles == DOMAIN val
 
-Init == val = <<0>> /\ ids = <<{1}>> /\ nextTok = 2 /\ hist = <<>>   \* handle 1: a state from reset
+Init == val = <<0>> /\ ids = <<{1}>> /\ nextTok = 2 /\ ans = <<>> /\ hist = <<>>   \* handle 1: a state from reset
 
 NewHandle(v, op, src) ==
   /\ Len(val) < MaxHandles
   /\ val' = Append(val, v)
   /\ ids' = Append(ids, {nextTok})
   /\ nextTok' = nextTok + 2
+  /\ UNCHANGED ans
   /\ hist' = Append(hist, <<op, src, Len(val) + 1>>)
 \* functional_step: a new state (its value may or may not differ), fresh identities, input untouched
 Step(h) == NewHandle(nextTok + 1, "Step", h)
 \* copy: same value, fresh identities
 Copy(h) == NewHandle(val[h], "Copy", h)
 \* pure questions: nothing changes
-Ask(op, h) == /\ UNCHANGED <<val, ids, nextTok>> /\ hist' = Append(hist, <<op, h, 0>>)
+Ask(op, h) ==
+  /\ UNCHANGED <<val, ids, nextTok>>
+  /\ ans' = IF op = "Obs" THEN Append(ans, <<h, val[h]>>) ELSE ans
+  /\ hist' = Append(hist, <<op, h, 0>>)
 \* the caller mutates one of its states in place
 Mutate(h) ==
   /\ val' = [val EXCEPT ![h] = nextTok]
   /\ nextTok' = nextTok + 1
   /\ UNCHANGED ids
+  /\ \E S \in SUBSET {k \in DOMAIN ans : ans[k][1] = h} :
+        ans' = [k \in DOMAIN ans |-> IF k \in S THEN <<h, nextTok>> ELSE ans[k]]
   /\ hist' = Append(hist, <<"Mutate", h, 0>>)
 Next ==
   /\ Len(hist) < Depth
@@ -51,6 +65,9 @@ AliasFree == \A g, h \in Handles : g # h => ids[g] \cap ids[h] = {}
 \* a value changes only through Mutate on that handle
 OnlyMutateChanges ==
   [][\A h \in Handles : val'[h] # val[h] => hist'[Len(hist')] = <<"Mutate", h, 0>>]_vars
+\* an answer, once given, changes only when the caller mutates the very state it was asked about
+AnswersNeverChange ==
+  [][\A k \in DOMAIN ans : ans'[k] # ans[k] => hist'[Len(hist')] = <<"Mutate", ans[k][1], 0>>]_vars
 \* a copy equals its original at the time of copying
 CopyEquals == [][\A h \in Handles : (Len(val') > Len(val) /\ hist'[Len(hist')][1] = "Copy" /\ hist'[Len(hist')][2] = h)
                    => val'[Len(val')] = val[h]]_vars
